@@ -879,14 +879,9 @@ fn metas(prog: &Prog) -> Vec<Meta> {
         .iter()
         .map(|p| {
             let nt = &prog.nts[p.ty];
-            let cause = if nt.alias_param {
-                Some(K_ALIAS.to_string())
-            } else if nt.u == U::List && nt.hook.has_hook() {
-                Some(K_GENERIC.to_string())
-            } else {
-                None
-            };
-            Meta { site: p.site.name(), hook: nt.hook.class().to_string(), cause }
+            // generated programs never carry a known-finding cause: constructs of open findings are excluded by
+            // construction, so any failure is reported under its own signature (only canonical inputs name a cause)
+            Meta { site: p.site.name(), hook: nt.hook.class().to_string(), cause: None }
         })
         .collect()
 }
